@@ -39,10 +39,16 @@ CRATES = ["math", "codec", "core"]
 KANI_LIB_C = None  # resolved lazily
 
 CBMC_BASE = [
-    "--no-malloc-may-fail", "--no-undefined-shift-check", "--no-signed-overflow-check",
-    "--no-self-loops-to-assumptions", "--no-pointer-primitive-check",
+    "--no-standard-checks", "--no-malloc-may-fail", "--no-self-loops-to-assumptions",
     "--object-bits", "16", "--sat-solver", "cadical", "--slice-formula",
 ]
+# `--no-standard-checks`: CBMC's own C-level instrumentation (pointer validity, array bounds,
+# division by zero, ...) is off. Every Rust-level failure - integer overflow, slice/array index
+# out of range, division by zero, unwrap/expect/explicit panic, capacity overflow - is an explicit
+# assertion in the GOTO program Kani generates from MIR and stays checked, as do the harness
+# assertions and the unwinding assertions. What is given up is the memory-safety audit of `unsafe`
+# code inside std and dependencies (the crates under test `deny`/`forbid` unsafe code); that
+# audit costs 2-3x in symbolic-execution time and most of the formula.
 # R5: Kani's default `--nan-check` is deliberately not passed: producing a NaN is not a
 # panic in Rust and the canonical-NaN property is asserted on results by the harnesses.
 
@@ -136,7 +142,7 @@ def select(prop, tier, only):
             if only and only not in h["name"]:
                 continue
             t = h.get("tier", "quick")
-            if t == "off" or (tier == "quick" and t != "quick"):
+            if (t == "off" and not only) or (t != "off" and tier == "quick" and t != "quick"):
                 continue
             hs.append(h)
     return hs
@@ -192,7 +198,21 @@ def codegen(crate, prop, rundir, names=None):
                     metas.append((os.path.getmtime(fp), fp))
         if not metas:
             raise SystemExit(f"INCONCLUSIVE property={prop} reason=no-kani-metadata crate={crate}")
-        meta = json.load(open(max(metas)[1]))
+        # One metadata file per distinct harness selection is kept by cargo (the selection is part
+        # of the compiler arguments): take the newest one that holds every requested harness.
+        meta = None
+        for _, fp in sorted(metas, reverse=True):
+            try:
+                cand = json.load(open(fp))
+            except ValueError:
+                continue
+            have = {h["pretty_name"].split("::")[-1] for h in cand.get("proof_harnesses", [])}
+            if names is None or set(names) <= have:
+                if all(os.path.exists(h["goto_file"]) for h in cand["proof_harnesses"]):
+                    meta = cand
+                    break
+        if meta is None:
+            raise SystemExit(f"INCONCLUSIVE property={prop} reason=no-kani-metadata-for-selection crate={crate}")
         out = {}
         for h in meta["proof_harnesses"]:
             name = h["pretty_name"].split("::")[-1]
@@ -305,10 +325,9 @@ def verify_one(h, meta, rundir, scale):
     out, rc, dt = run(cmd, lf, timeout, mem)
     lf.close()
     res["wall_s"] = round(time.time() - t0, 2)
-    try:
-        os.unlink(g)
-    except OSError:
-        pass
+    res["_bin"] = g
+    res["_cmd"] = cmd[:-1]  # without --json-ui
+    res["_limits"] = (timeout, mem)
     if rc == "timeout":
         res.update(status="inconclusive", reason=f"timeout>{timeout:.0f}s")
         return res
@@ -416,7 +435,7 @@ def concrete_playback(h, rundir, res=None):
     if res and res.get("unwindset_resolved"):
         extra += ["--unwindset", res["unwindset_resolved"]]
     if extra:
-        cmd += ["--cbmc-args"] + extra
+        cmd += ["-Z", "unstable-options", "--cbmc-args"] + extra
     try:
         p = subprocess.run(cmd, cwd=cdir, env=ENV, stdout=subprocess.PIPE, stderr=subprocess.STDOUT, text=True,
                            timeout=float(h.get("timeout", "300")) * 4 + 600)
@@ -433,6 +452,55 @@ def concrete_playback(h, rundir, res=None):
             if b:
                 hexs += "%02x" % int(b)
     return hexs
+
+
+def _value_bytes(v):
+    """CBMC trace value -> little-endian bytes (what kani::any::<T>() consumed)."""
+    if v is None:
+        return b""
+    if "elements" in v:  # arrays
+        return b"".join(_value_bytes(e.get("value")) for e in v["elements"])
+    if "members" in v:  # structs (tuples, newtypes)
+        return b"".join(_value_bytes(m.get("value")) for m in v["members"])
+    bits = v.get("binary")
+    if not bits:
+        return b""
+    n = (len(bits) + 7) // 8
+    return int(bits, 2).to_bytes(n, "little")
+
+
+def trace_counterexample(res, rundir):
+    """Second CBMC run on the same binary with --trace: the values returned by kani::any_raw_*
+    in execution order are exactly the byte stream the native shim's any() consumes."""
+    g = res.get("_bin")
+    if not g or not os.path.exists(g):
+        return None
+    timeout, mem = res["_limits"]
+    cmd = res["_cmd"] + ["--trace", "--stop-on-fail", "--json-ui"]
+    lf = open(os.path.join(rundir, res["harness"] + ".trace.log"), "wb")
+    out, rc, _ = run(cmd, lf, timeout * 2, mem)
+    lf.close()
+    if out is None:
+        return None
+    try:
+        doc = json.loads(out)
+    except ValueError:
+        return None
+    want = {x["property"] for x in res["failed"]}
+    for e in doc:
+        for r in e.get("result", []) if isinstance(e, dict) else []:
+            if r.get("status") != "FAILURE" or "trace" not in r or r["property"] not in want:
+                continue
+            hexs = ""
+            for st in r["trace"]:
+                if st.get("stepType") != "assignment":
+                    continue
+                fn = st.get("sourceLocation", {}).get("function", "")
+                if fn.startswith("kani::any_raw_") and st.get("lhs", "").startswith("goto_symex$$return_value"):
+                    hexs += _value_bytes(st.get("value")).hex()
+            res["counterexample_property"] = r["property"]
+            return hexs
+    return None
 
 
 def native_build(crate, rundir):
@@ -601,7 +669,9 @@ def main():
     for r in failed:
         h = byname[r["harness"]]
         rd = rundirs[h["crate"]]
-        hexs = concrete_playback(h, rd, r)
+        hexs = trace_counterexample(r, rd)
+        if hexs is None:
+            hexs = concrete_playback(h, rd, r)
         if hexs is None:
             r["status"] = "inconclusive"
             r["reason"] = "solver reported a failed check but no concrete counterexample could be extracted"
@@ -635,6 +705,16 @@ def main():
         else:
             r["status"] = "violation"
             violations.append(r)
+
+    for r in results:
+        b = r.pop("_bin", None)
+        r.pop("_cmd", None)
+        r.pop("_limits", None)
+        if b:
+            try:
+                os.unlink(b)
+            except OSError:
+                pass
 
     # ---- evidence
     ok = [r for r in results if r["status"] == "ok"]
@@ -686,6 +766,25 @@ def main():
     os.makedirs(EVID, exist_ok=True)
     json.dump(ev, open(os.path.join(EVID, f"{prop}.json"), "w"), indent=1)
 
+    # recorded findings that only a native run can exhibit (far beyond the byte bounds)
+    for kf in known:
+        nr = kf.get("native_replay")
+        if not nr or a.only:
+            continue
+        rd = rundirs.get(nr["crate"]) or os.path.join(HARN, nr["crate"], "target", "runs", f"{prop}-{os.getpid()}")
+        os.makedirs(rd, exist_ok=True)
+        if nr["crate"] not in built:
+            if not native_build(nr["crate"], rd):
+                log(f"NOTE property={prop} {kf['id']}: native replay build failed; finding not re-confirmed this run")
+                continue
+            built.add(nr["crate"])
+        out = native_replay(dict(name=nr["harness"], crate=nr["crate"]), nr.get("bytes_hex", ""))
+        if any(v["verdict"] == "panic" or v["verdict"].startswith("abort") for v in out.values()):
+            log(f"KNOWN-FINDING: property={prop} {kf['id']}: {kf['what']} (native replay of {nr['harness']}: "
+                f"{ {k: v['verdict'] for k, v in out.items()} })")
+        else:
+            log(f"NOTE property={prop} {kf['id']} no longer reproduces natively ({ {k: v['verdict'] for k, v in out.items()} }); "
+                f"move it to `fixed` in known_findings.json")
     for kf, r in known_hits:
         log(f"KNOWN-FINDING: property={prop} {kf['id']}: {kf['what']} (harness {r['harness']}, replay {r['replay']})")
     for r in violations:
